@@ -46,6 +46,11 @@ OPS = [
     ('list', 'insert', lambda r: (r.randrange(-2, 3), r.randrange(4))), ('list', 'remove', lambda r: (r.randrange(4),)),
     ('dict', 'set', lambda r: (r.randrange(4), r.randrange(4))), ('dict', 'pop', lambda r: (r.randrange(4),)),
     ('set', 'add', lambda r: (r.randrange(6),)), ('set', 'discard', lambda r: (r.randrange(6),)),
+    # reset() keeps its argument: byte-identical commands recur on purpose (tiny domains), with in-place operations between them
+    ('list', 'reset', lambda r: ([r.randrange(3) for _ in range(r.randrange(3))],)),
+    ('dict', 'reset', lambda r: (dict((k, 0) for k in range(r.randrange(3))),)),
+    ('set', 'reset', lambda r: (set(range(r.randrange(3))),)),
+    ('list', 'reset', lambda r: ([],)), ('list', 'append', lambda r: (r.randrange(4),)),
     ('queue', 'put', lambda r: (r.randrange(9),)), ('queue', 'get', lambda r: ()),
     ('pq', 'put', lambda r: (r.randrange(9),)), ('pq', 'get', lambda r: ()),
 ]
